@@ -23,24 +23,28 @@ pub enum Lk {
     /// the same label was sent, then a PDU with ANOTHER label went out through encap_ext (header extension), as a
     /// complete packet (false) or as a first fragment whose train stays unfinished (true): both ends remember the other label
     AfterSameThenExt(Lbl, bool),
+    /// a limit of 1 consecutive re-use label, the label sent twice (in full, then as re-use): the counter sits exactly at
+    /// the limit, the first fragment must carry the label in full again
+    AfterSameAtMax(Lbl),
 }
 
 impl Lk {
     pub fn label(self) -> Lbl {
         match self {
-            Lk::Plain(l) | Lk::AfterSame(l) | Lk::AfterSameThenExt(l, _) => l,
+            Lk::Plain(l) | Lk::AfterSame(l) | Lk::AfterSameThenExt(l, _) | Lk::AfterSameAtMax(l) => l,
         }
     }
     pub fn name(self) -> String {
         match self {
             Lk::Plain(l) => l.short().split(':').next().unwrap().to_string(),
             Lk::AfterSame(l) => format!("{}-after-same", l.short().split(':').next().unwrap()),
+            Lk::AfterSameAtMax(l) => format!("{}-after-same-at-max", l.short().split(':').next().unwrap()),
             Lk::AfterSameThenExt(l, f) => format!("{}-after-same-then-ext-other-{}", l.short().split(':').next().unwrap(), if f { "first" } else { "complete" }),
         }
     }
 }
 
-pub const LKS: [Lk; 7] = [Lk::Plain(L6A), Lk::Plain(L3A), Lk::Plain(Lbl::Bcast), Lk::AfterSame(L6A), Lk::AfterSame(L3A), Lk::AfterSameThenExt(L6A, false), Lk::AfterSameThenExt(L6A, true)];
+pub const LKS: [Lk; 8] = [Lk::Plain(L6A), Lk::Plain(L3A), Lk::Plain(Lbl::Bcast), Lk::AfterSame(L6A), Lk::AfterSame(L3A), Lk::AfterSameThenExt(L6A, false), Lk::AfterSameThenExt(L6A, true), Lk::AfterSameAtMax(L3A)];
 
 #[derive(Clone, Debug, PartialEq, Eq, Hash)]
 pub enum Tx {
@@ -118,6 +122,18 @@ impl Case {
             pkts.push(scratch[..o2.len().unwrap_or(0).min(64)].to_vec());
             for q in pkts {
                 let (out, mut rx2) = step_decap(&rx, &DefaultCrc {}, &TableMgr::none(), &q);
+                if let DecapOut::Completed { buf, .. } = out {
+                    rx2.mem.free.push(vec![0u8; buf.len()]);
+                }
+                rx = rx2;
+            }
+        }
+        if let Lk::AfterSameAtMax(l) = self.lk {
+            enc.enable_re_use_label_with_max_consecutive(1);
+            for k in 0..2u8 {
+                let mut scratch = [0u8; 32];
+                let o = do_encap(&mut enc, &[0x42 + k], 0, 0x0800, l, &mut scratch);
+                let (out, mut rx2) = step_decap(&rx, &DefaultCrc {}, &TableMgr::none(), &scratch[..o.len().unwrap_or(0).min(32)]);
                 if let DecapOut::Completed { buf, .. } = out {
                     rx2.mem.free.push(vec![0u8; buf.len()]);
                 }
@@ -330,7 +346,7 @@ fn small(rep: &Report, tier: Tier) {
             for fid in fids {
                 for storage in [p, p + 5] {
                     // receiver prior states: all three for one fragment id per cell, fresh only for the id sweep
-                    let rxps: Vec<RxPrior> = if (p == 5 && fid > 2) || matches!(lk, Lk::AfterSameThenExt(..)) { vec![RxPrior::Fresh] } else { RX_PRIORS.to_vec() };
+                    let rxps: Vec<RxPrior> = if (p == 5 && fid > 2) || matches!(lk, Lk::AfterSameThenExt(..) | Lk::AfterSameAtMax(_)) { vec![RxPrior::Fresh] } else { RX_PRIORS.to_vec() };
                     for rx_prior in rxps {
                         let pat = ((p + li + storage) % 4) as u8;
                         let mut bufs: Vec<usize> = (0..=p + 24).collect();
